@@ -75,6 +75,9 @@ structure S where
   -- DialAsync: `c.onConnected != nil` (connect in progress) / the poller is running that callback
   connecting : Bool := false
   connEv : Bool := false
+  /-- a dial that connected at once was registered for writing with nothing to write (`isWAdded` without a
+      backlog and without a pending connected callback); cleared with `isWAdded` by the first `resetRead` -/
+  idle : Bool := false
   -- write deadline: `c.wTimer != nil` / the timer has expired and its goroutine has not yet taken the mutex
   wTimer : Bool := false
   firePending : Bool := false
@@ -146,10 +149,11 @@ def cModWrite (g : Cfg) (s : S) : S :=
   if !s.closed && !s.isWAdded then pModWrite g { s with isWAdded := true } else s
 /-- Conn.resetRead: back to read-only, unless something is left to write -/
 def cResetRead (g : Cfg) (s : S) : S :=
-  if !s.closed && s.isWAdded && s.wl.isEmpty then pResetRead g { s with isWAdded := false } else s
-/-- Conn.ResetPollerEvent -/
+  if !s.closed && s.isWAdded && s.wl.isEmpty then pResetRead g { s with isWAdded := false, idle := false } else s
+/-- Conn.ResetPollerEvent (ONESHOT); back to read-only also clears the conn's belief `isWAdded` -/
 def resetPollerEvent (g : Cfg) (s : S) : S :=
-  if g.mode == .oneshot && !s.closed then (if s.wl.isEmpty then pResetRead g s else pModWrite g s) else s
+  if g.mode == .oneshot && !s.closed then
+    (if s.wl.isEmpty then pResetRead g { s with isWAdded := false, idle := false } else pModWrite g s) else s
 
 /-- `c.closed = true` under the mutex: the caller (only it) will run closeWithErrorWithoutLock. The
     fatal-error branches of Write / Writev do exactly this before they unlock (no timer is stopped). -/
@@ -317,6 +321,13 @@ def registerDial (g : Cfg) (s : S) : S :=
   if s.hung || s.reg || s.closed then s
   else pAddReadWrite g { s with isWAdded := true, connecting := true }
 
+/-- addDialer for a dial whose connect() finished at once (unix sockets): the same registration (read+write,
+    `isWAdded`), but no connected callback is pending — the callback runs on its own goroutine like any other
+    caller, and the first EPOLLOUT is handled by `flush` -/
+def registerDialNow (g : Cfg) (s : S) : S :=
+  if s.hung || s.reg || s.closed then s
+  else pAddReadWrite g { s with isWAdded := true, idle := true }
+
 /-- which parts of a requested event the kernel can deliver in this state (no data arrives on a
     connection that is not yet established; the poller handles one event of a conn at a time) -/
 def deliverable (s : S) (out inn err : Bool) : Bool × Bool × Bool :=
@@ -478,6 +489,9 @@ def registerDialOp (g : Cfg) (s : S) : S :=
   ghost (registerDial g s) (s.edgeDue || (!s.hung && !s.reg && !s.closed))
     (s.early || (!s.hung && !s.reg && !s.closed && !s.wl.isEmpty))
 
+def registerDialNowOp (g : Cfg) (s : S) : S :=
+  ghost (registerDialNow g s) (s.edgeDue || (!s.hung && !s.reg && !s.closed)) s.early
+
 /-- the parts of a requested event that are delivered (ET: EPOLLOUT only when a report is due) -/
 def evDeliv (g : Cfg) (s : S) (out inn err : Bool) : Bool × Bool × Bool :=
   deliverable s (out && (g.mode != .et || s.edgeDue)) inn err
@@ -496,6 +510,7 @@ inductive Op
   | sendfile (off len : Nat) (ks : List KAns)
   | register
   | registerDial
+  | registerDialNow
   | evTake (out inn err : Bool) (ks : List KAns)
   | evEnd
   | evConnEnd
@@ -513,6 +528,7 @@ def step (g : Cfg) (s : S) : Op → S
   | .sendfile off len ks => (sendfileOp g s off len ks).1
   | .register => registerOp g s
   | .registerDial => registerDialOp g s
+  | .registerDialNow => registerDialNowOp g s
   | .evTake o i e ks => evTakeOp g s o i e ks
   | .evEnd => evEnd g s
   | .evConnEnd => evConnEnd g s
